@@ -167,6 +167,8 @@ fn scanners(stats: &mut Stats) {
                 let mk = |first: usize| {
                     let src = Src { data: t.to_vec(), pos: 0, grain: if first == 0 { usize::MAX } else { first }, lie_at: None, calls: 0 };
                     let mut r = DeferredReader::from_read(src);
+                    // small chunks: zero-filling a 16 KiB buffer per case dominates under miri
+                    r.set_chunk_size(32);
                     if first > 0 {
                         r.request(first);
                     }
@@ -188,8 +190,8 @@ fn scanners(stats: &mut Stats) {
     }
     // the BTOR2 keyword scanner (its own SWAR path) through the parser, every read grain
     let doc: &[u8] = b"1 sort bitvec 8\n2 constraint 1\n3 implies 1 2 2 sym ; c\n4 redxor 1 2\n5 justice 2 2 3\n; comment";
-    for grain in 1..=12usize {
-        for chunk in [1usize, 3, 8, 16384] {
+    for grain in [1usize, 7, 8, 9, 11] {
+        for chunk in [1usize, 64] {
             stats.cases += 1;
             println!("CASE {} btor2 grain {grain} chunk {chunk}", stats.cases);
             let src = Src { data: doc.to_vec(), pos: 0, grain, lie_at: None, calls: 0 };
@@ -198,7 +200,7 @@ fn scanners(stats: &mut Stats) {
             let mut p = flussab_btor2::Parser::new(LineReader::new(r), flussab_btor2::Config::default()).unwrap();
             let mut n = 0;
             while let Ok(Some(l)) = p.next_line() {
-                std::hint::black_box(format!("{l:?}").len());
+                std::hint::black_box(&l);
                 n += 1;
             }
             assert_eq!(n, 6);
@@ -239,13 +241,15 @@ enum WOp {
     Write(usize),
     DigitsMin,
     DigitsSmall,
+    DigitsI8Min,
+    DigitsU16Max,
     PtrFree,
     PtrOver,
     Flush,
     Check,
 }
 
-const WOPS: [WOp; 11] = [WOp::Write(0), WOp::Write(1), WOp::Write(7), WOp::Write(8), WOp::Write(9), WOp::Write(25), WOp::DigitsMin, WOp::DigitsSmall, WOp::PtrFree, WOp::PtrOver, WOp::Flush];
+const WOPS: [WOp; 13] = [WOp::DigitsI8Min, WOp::DigitsU16Max, WOp::Write(0), WOp::Write(1), WOp::Write(7), WOp::Write(8), WOp::Write(9), WOp::Write(25), WOp::DigitsMin, WOp::DigitsSmall, WOp::PtrFree, WOp::PtrOver, WOp::Flush];
 
 fn writer_histories(depth: usize, stats: &mut Stats) {
     for (fail_at, panic_at, short) in [(None, None, false), (None, None, true), (Some(0), None, false), (Some(1), None, true), (None, Some(0), false), (None, Some(1), false)] {
@@ -277,6 +281,8 @@ fn writer_histories(depth: usize, stats: &mut Stats) {
                     }
                     WOp::DigitsMin => flussab::write::text::ascii_digits(&mut w, i64::MIN),
                     WOp::DigitsSmall => flussab::write::text::ascii_digits(&mut w, 7u8),
+                    WOp::DigitsI8Min => flussab::write::text::ascii_digits(&mut w, i8::MIN),
+                    WOp::DigitsU16Max => flussab::write::text::ascii_digits(&mut w, u16::MAX),
                     WOp::PtrFree => {
                         let p = w.buf_write_ptr(free);
                         if !p.is_null() {
@@ -316,10 +322,17 @@ fn writer_histories(depth: usize, stats: &mut Stats) {
 fn main() {
     std::panic::set_hook(Box::new(|_| {}));
     let depth: usize = std::env::args().nth(1).and_then(|s| s.parse().ok()).unwrap_or(2);
+    let part = std::env::args().nth(2).unwrap_or_else(|| "all".to_string());
     let mut stats = Stats::default();
-    reader_histories(depth, &mut stats);
-    scanners(&mut stats);
-    writer_histories(depth, &mut stats);
+    if part == "all" || part == "reader" {
+        reader_histories(depth, &mut stats);
+    }
+    if part == "all" || part == "scanners" {
+        scanners(&mut stats);
+    }
+    if part == "all" || part == "writer" {
+        writer_histories(depth, &mut stats);
+    }
     println!(
         "DONE {{\"cases\": {}, \"ops\": {}, \"caught_panics\": {}, \"invariant_broken\": {}, \"content_wrong\": {}, \"depth\": {}}}",
         stats.cases, stats.ops, stats.caught_panics, stats.invariant_broken, stats.content_wrong, depth
